@@ -19,7 +19,7 @@ from .common import (bound_args, call_name, enclosing_loops, iteration_segments,
                      reaching_value, short, stmt_contains)
 from .c17 import map_stores, returned_map_name
 
-FLOORS = {'C03.Q1': 4, 'C03.Q2': 2, 'C03.Q3': 5}
+FLOORS = {'C03.Q1': 4, 'C03.Q2': 2, 'C03.Q3': 5, 'C03.Q5': 2}
 
 ALGS = ['BatchProcessing.run', 'QueueProcessing.run', 'DynamicSchedulingFromPlan.run',
         'GreedySchedulingFromPlan.run']
@@ -46,6 +46,60 @@ def check(repo, res, tier):
         q1(repo, res, canon, pc, plogic, repo.func(q))
     q2(repo, res, canon, logic)
     q3(repo, res, canon, pc, logic)
+    q5(repo, res, canon)
+
+
+# --------------------------------------------------------------------------- Q5
+def q5(repo, res, canon):
+    """The process that watches a task (Cluster.allocate_task_to_cluster) wakes only at whole
+    steps: every yield is env.timeout(<whole number>).  Waiting on the work process itself
+    (`yield ret`) resumes it at the fractional time the work ends, the task is reported FINISHED
+    before its recorded finish (now + 1) and a successor is placed a step early."""
+    res.rule('C03.Q5', 'the task-watching process yields only env.timeout(<whole steps>): completion is seen at whole-step '
+                       'polls, never at the (possibly fractional) moment the work process ends')
+    f = repo.func('Cluster.allocate_task_to_cluster')
+    fr = Frame(f)
+    seen = set()
+    n_y = [0]
+
+    def judge(g, gfr):
+        if g.qual in seen:
+            return
+        seen.add(g.qual)
+        for n in walk_no_nested(g.node):
+            if isinstance(n, ast.Yield):
+                n_y[0] += 1
+                v = n.value
+                okv = isinstance(v, ast.Call) and call_name(v) == 'timeout' and len(v.args) == 1 and not v.keywords
+                if okv:
+                    a = canon.c(v.args[0], gfr)
+                    okv = bool(re.fullmatch(r'\d+', a))
+                    why = 'sleeps %s, not a whole number of steps' % a
+                else:
+                    why = 'waits on %s instead of sleeping a whole step' % short(ast.unparse(v) if v is not None else 'nothing')
+                if okv:
+                    res.ok('C03.Q5', g, n, short(ast.unparse(n)), 'whole-step sleep')
+                else:
+                    res.bad('C03.Q5', g, n, short(ast.unparse(n)),
+                            'the process watching the task %s: it resumes the moment the work process ends (a fractional '
+                            'time when a transfer wait was fractional), reports the task FINISHED before its recorded '
+                            'finish time and lets a successor start a step early' % why)
+            elif isinstance(n, ast.YieldFrom):
+                c = n.value
+                sub = None
+                if isinstance(c, ast.Call):
+                    cals, _exact = repo.resolve_call(c, g)
+                    if len(cals) == 1:
+                        sub = cals[0]
+                if sub is not None:
+                    judge(sub, Frame(sub))
+                else:
+                    n_y[0] += 1
+                    res.bad('C03.Q5', g, n, short(ast.unparse(n)), 'the process watching the task delegates to %s, whose '
+                            'sleeps cannot be judged' % short(ast.unparse(c)))
+    judge(f, fr)
+    if not n_y[0]:
+        raise AnalysisError('Cluster.allocate_task_to_cluster yields nothing (C03.Q5 anchor moved)')
 
 
 # --------------------------------------------------------------------------- Q1
@@ -354,7 +408,8 @@ def q3(repo, res, canon, pc, logic):
         f = repo.func('Scheduler._find_pred_allocations')
         fr = Frame(f)
         res.analysed(f, len(cached_paths(f)))
-        tparam, mparam, aparam = f.params[1], f.params[2], f.params[3]
+        off = 0 if any('staticmethod' in d for d in f.decorators) else 1
+        tparam, mparam, aparam = f.params[off], f.params[off + 1], f.params[off + 2]
         rets = [n for n in walk_no_nested(f.node) if isinstance(n, ast.Return) and n.value is not None]
         ok = bool(rets)
         why = 'nothing returned'
